@@ -67,6 +67,11 @@ def star_scripts(r):
         sql5 = (f"create table s.b as select {c1}, {c2} from s.a;\ninsert into s.c select * from s.b")
         out.append(({"sql": sql5, "dialect": "ansi", "metadata": md4, "config": {}, "origin": "stale-catalog-star"},
                     sorted([f"s.a.{c1}>s.c.{c1}", f"s.a.{c2}>s.c.{c2}"])))
+        # a wildcard that cannot be expanded (source unknown to a non-empty provider) still chains through the intermediate table
+        sql6 = "insert into s.b select * from s.k2;\ninsert into s.c select * from s.b"
+        out.append(({"sql": sql6, "dialect": "ansi", "metadata": md, "config": {}, "origin": "star-unexpandable"}, ["s.k2.*>s.c.*"]))
+        sql7 = f"insert into s.b select * from s.k2;\ninsert into s.b select {c1} from s.a;\ninsert into s.c select * from s.b"
+        out.append(({"sql": sql7, "dialect": "ansi", "metadata": md, "config": {}, "origin": "star-unexpandable-then-positional"}, None))
     return out
 
 
@@ -113,6 +118,8 @@ def main() -> int:
             ck.nontriv((x["rec"]["sql"], json.dumps(x["rec"].get("metadata"), sort_keys=True)))
         if i >= len(recs):
             exp = special[i - len(recs)][1]
+            if exp is None:
+                continue        # tie only
             dist["s2_checked"] += 1
             if sorted(p for p in pairs.split(";") if p) != exp:
                 spec_failures.append(dict(case, suite="S2-known-earlier", impl_pairs=pairs, expected_pairs=exp,
